@@ -79,7 +79,7 @@ pub fn main(args: &Args) -> i32 {
     let spec = Spec {
         id: "C11",
         level: "exploration",
-        rule: "C01/C02-style histories with every client on SQLite and restarts (drop MDK and storage, reopen the file) at arbitrary positions: between a worse and a better commit, with a pending commit, with queued proposals, between process_welcome and accept_welcome, after key-package creation. Three oracles: (1) every restart leaves the full API-visible fingerprint and the pending welcomes identical; (2) a passive non-admin member is mirrored by a twin opened on a copy of its database that receives the same events and never restarts - full fingerprints equal after every delivery; (3) the restarted members converge with the others and hold the winning branch's messages exactly as C01/C02 demand. A quarter of the histories start with a directed prelude: a race lost two or three commits deep, restart(s), then a fresh race on the new branch whose worse commit arrives first. Non-trivial = a restart followed later by a rollback, an own echo or a late commit at that client; distinct = distinct plans".into(),
+        rule: "C01/C02-style histories with every client on SQLite and restarts (drop MDK and storage, reopen the file) at arbitrary positions: between a worse and a better commit, with a pending commit, with queued proposals, between process_welcome and accept_welcome, after key-package creation. Three oracles: (1) every restart leaves the full API-visible fingerprint and the pending welcomes identical; (2) a passive non-admin member is mirrored by a twin opened on a copy of its database that receives the same events and never restarts - full fingerprints equal after every delivery; (3) the restarted members converge with the others and hold the winning branch's messages exactly as C01/C02 demand. A quarter of the histories start with a directed prelude: a race lost two or three commits deep, restart(s), then a fresh race on the new branch whose worse commit arrives first; a fifth start with eleven commits in a row (the epoch crosses from one digit to two) that the passive client applies as one backlog, a restart, and three more commits. Non-trivial = a restart followed later by a rollback, an own echo or a late commit at that client; distinct = distinct plans".into(),
         assumptions: vec![
             "clean shutdown only (crashes are C12)".into(),
             "wall-clock fields (processed_at, self-update completion time) are erased before comparing".into(),
@@ -96,8 +96,34 @@ pub fn main(args: &Args) -> i32 {
             // a quarter of the histories start with a directed prelude (the random tail follows):
             // a commit race lost `depth` commits deep, the restart, then a fresh race on the new
             // branch whose worse commit arrives first - the restarted client must still resolve it
-            (plan_strategy(&opts, &weights, len.clone()), 0u8..4, 2u8..4, any::<bool>())
+            (plan_strategy(&opts, &weights, len.clone()), 0u8..5, 2u8..4, any::<bool>())
                 .prop_map(|(mut p, roll, depth, restart_twice)| {
+                    if roll == 1 {
+                        // the epoch counter crosses from one digit to two while the passive client
+                        // catches up on a backlog (all snapshots within one second), then the
+                        // restart, then more commits: which snapshots retention evicts must not
+                        // depend on the restart (the twin never restarts)
+                        p.setup.members = 3;
+                        p.setup.admin_mask = 1;
+                        p.setup.regime = Regime::Causal;
+                        p.setup.cfg.retention = 2 + (depth as usize % 3);
+                        let (a0, m0, m2) = (0u16, 0u16, 32768u16);
+                        let mut pre = vec![];
+                        for _ in 0..11 {
+                            pre.push(Op::SelfUpdate { m: a0, ts: 1, apply: Apply::Echo });
+                            pre.push(Op::SelfEcho { m: m0 });
+                        }
+                        pre.push(Op::CatchUp { m: m2 });
+                        pre.push(Op::Restart { m: m2 });
+                        for _ in 0..3 {
+                            pre.push(Op::SelfUpdate { m: a0, ts: 1, apply: Apply::Echo });
+                            pre.push(Op::SelfEcho { m: m0 });
+                            pre.push(Op::CatchUp { m: m2 });
+                        }
+                        p.ops.truncate(20);
+                        pre.extend(p.ops.drain(..));
+                        p.ops = pre;
+                    }
                     if roll == 0 {
                         p.setup.members = 3;
                         p.setup.admin_mask = 1;
